@@ -6,6 +6,7 @@
 use std::io::{BufRead, Write};
 
 mod engines;
+mod conn;
 mod rt;
 
 pub type Fields = Vec<Vec<u64>>;
